@@ -57,3 +57,88 @@ def _err_of(log, rel):
 
 def rng(seed, salt=""):
     return random.Random("%s/%s" % (seed, salt))
+
+
+# ---------------------------------------------------------------------------------------------------------------
+from vlib import model as _model
+from vlib import cfggen as _cfggen
+import random as _random
+
+
+def mk_spec(k, files, patterns=None, flags=None, version="1.2.3", output="out.go", dump=True, keep_out=False, extra=None):
+    fs = []
+    for i, f in enumerate(files):
+        if isinstance(f, dict) and "path" in f:
+            fs.append(f)
+        else:
+            content = f if isinstance(f, str) else _cfggen.to_yaml(f)
+            fs.append({"path": "cfg/f%d.yaml" % i, "content": content})
+    sp = {"id": str(k), "files": fs, "patterns": patterns or ["cfg/*.yaml"], "output": output, "flags": flags or {},
+          "version": version, "build_info": "bi", "dump": dump, "keep_out": keep_out}
+    if extra:
+        sp.update(extra)
+    return sp
+
+
+def random_specs(seed, n, salt, inj_rate=0.5, injectors=None, flags_fn=None, features=None, nfiles_choices=(1, 1, 2, 3)):
+    specs = []
+    for k in range(n):
+        r = _random.Random("%s/%s/%d" % (seed, salt, k))
+        g = _cfggen.Gen(r, features=features)
+        cfg = g.config()
+        what = []
+        if r.random() < inj_rate:
+            names = injectors or sorted(_cfggen.INJECTORS)
+            for _ in range(r.choice([1, 1, 2, 3])):
+                w = _cfggen.INJECTORS[r.choice(names)](r, cfg)
+                if w:
+                    what.append(w)
+        nf = r.choice(nfiles_choices)
+        files = _cfggen.split_files(r, cfg, nf) if nf > 1 else [cfg]
+        fl = flags_fn(r) if flags_fn else {"ignore_params": r.random() < 0.2, "ignore_services": r.random() < 0.2,
+                                           "quiet": r.random() < 0.05, "stub": r.random() < 0.2}
+        sp = mk_spec(k, files, flags=fl)
+        sp["what"] = what
+        sp["cfg"] = cfg
+        specs.append(sp)
+    return specs
+
+
+def slim(spec, obs=None):
+    """replay payload of a case"""
+    d = {k: spec[k] for k in ("files", "patterns", "output", "flags", "version") if k in spec}
+    for k in ("what", "extra_args", "no_output_flag"):
+        if k in spec:
+            d[k] = spec[k]
+    if obs is not None:
+        d["observed"] = {k: obs.get(k) for k in ("exit", "errors", "stdout", "out_before", "out_after", "panic", "crashed") if k in obs}
+    return d
+
+
+def correspondence(out, env, specs, obs, name, verdict_claim=None):
+    """model vs real on every case.  A mismatch is 'something that no longer checks'.  When [verdict_claim] is given
+    (a sentence of the property about acceptance) and the model - whose verdict is the specified one by the theorems -
+    and the implementation disagree on the exit status, the case is reported as a concrete failing input."""
+    res, err = _model.correspond(env, specs, obs)
+    if res is None:
+        out.broke("correspondence:%s (model evaluation failed)" % name, err)
+        return None
+    nb = 0
+    for k, d in res:
+        if verdict_claim and d.startswith("line 0:"):
+            out.violation("verdict:%s" % (specs[k].get("what") or specs[k]["id"]),
+                          "%s: the implementation exits %s where the specified verdict (model, Props theorems) is the opposite" % (verdict_claim, obs[k].get("exit")),
+                          dict(slim(specs[k], obs[k]), diff=d))
+        elif nb < 5:
+            nb += 1
+            out.broke("correspondence:%s" % name, {"case": slim(specs[k], obs[k]), "diff": d})
+    return [k for k, _ in res]
+
+
+def real_sanity(out, specs, obs, pid):
+    """panics / crashes of the real command are violations of every property that quantifies over inputs"""
+    for sp, ob in zip(specs, obs):
+        if ob.get("panic") or ob.get("crashed"):
+            out.violation("panic:" + str(sp.get("what")), "the build command panicked: %s" % (ob.get("panic") or ob.get("stderr", ""))[:300], slim(sp, ob))
+        if ob.get("harness_error"):
+            out.broke("harness", ob.get("harness_error"))
